@@ -1,1 +1,1 @@
-#[test]
+// (generated at replay time; empty otherwise) concrete-playback tests for the harnesses of this module
